@@ -5,8 +5,8 @@ Master theorems for the generic packed pair searcher `src/arch/generic/packedpai
 * C12 `find_correct`        `find` = leftmost occurrence (construction needle), with cost (C13)
 * C11 `findPrefilter_sound` `find_prefilter` = leftmost position where the byte pair matches
 * C14 `find_panics_iff`, `findPrefilter_panics_iff`
-* C05 `find_reads_ok` (+ `find_foreign_good`, `find_ptrOob_iff`, `find_debugAssert_iff`):
-      behaviour for an arbitrary (foreign) search needle
+* C05 `find_reads_ok`, `find_no_fault_but_ptrOob`, `find_foreign_no_fault` (+ `find_foreign_good`,
+      `find_foreign_bad`, `find_ptrOob_iff`): behaviour for an arbitrary (foreign) search needle
 * C13 `find_cost`, `findPrefilter_cost`
 -/
 import MemchrModel.Proofs.PackedPairPrefilter
@@ -204,8 +204,6 @@ theorem findRes_conv (f : Finder) (hok : FinderOk V f) {hay needle : Slice} (hh 
     exact (noHitIn_iff f hh hn x (by omega)).mp a3
   | none => exact (noHitIn_iff f hh hn _ hsc).mp h
 
-/-- the tail's `debug_assert!(overlap < V::BYTES)` -/
-def siteOverlap : String := "find: overlap < V::BYTES"
 /-- the `end.sub(needle.len())` of `find_in_chunk` -/
 def siteEndSub : String := "find_in_chunk: end.sub(needle.len())"
 
@@ -213,21 +211,29 @@ def siteEndSub : String := "find_in_chunk: end.sub(needle.len())"
 def findCost (V : VecImpl) (f : Finder) (hay needle : Slice) : Nat :=
   ((hay.len - f.minHaystackLen) / V.bytes + 2) * (1 + V.bytes * (needle.len / 4 + 3))
 
-/-- the condition under which the tail's `debug_assert!(overlap < V::BYTES)` is reached with
-`overlap = V::BYTES` (impossible for the construction needle) -/
-def OverlapCond (V : VecImpl) (f : Finder) (hay needle : Slice) : Prop :=
-  (hay.len - f.minHaystackLen) % V.bytes = 0 ∧ needle.len + V.bytes ≤ f.minHaystackLen
+/-
+History (observation O3, fixed in /repo commit 407371c). Before the fix the tail of `find` had no
+`if overlap >= V::BYTES { return None; }` and the following
+`debug_assert!(overlap < V::BYTES)` was reachable through the safe public `find` with a foreign
+search needle: exactly when `(hay.len - min_haystack_len) % BYTES = 0`,
+`needle.len + BYTES <= min_haystack_len` and no scanned offset is a hit (the former theorem
+`find_debugAssert_iff`). Concrete input: finder for "abcdefgh" with the pair (0, 1) and 4-lane
+vectors (`min_haystack_len = 8`), search needle "z", a 12-byte haystack of "x"
+(`ppfind 4 6162636465666768 0 1 1000 7a 0 787878787878787878787878` answered
+`fault debug_assert [find: overlap < V::BYTES]`); in release builds the call went on to
+`all_zeros_except_least_significant(BYTES)` (`1u32 << 32` for AVX2). With the fix the same input
+returns `None` and `find_no_fault_but_ptrOob` below shows that no debug assertion is reachable
+any more, whatever the search needle.
+-/
 
 /-- `find` with any search needle that is not longer than the haystack's region up to the end of
-the haystack: either the lowest scanned hit (with cost), or the `overlap` debug assertion. -/
+the haystack returns normally: the lowest scanned offset where the pair matches and the search
+needle occurs, within the cost bound. -/
 theorem find_foreign_good (L : Lawful V) (f : Finder) (hok : FinderOk V f) (hay needle : Slice)
     (hh : hay.Valid) (hn : needle.Valid) (hlen : f.minHaystackLen ≤ hay.len)
     (hgood : needle.len ≤ hay.off + hay.len) (c : Ctr) :
-    (∃ r c', find V f hay needle c = .ok r c' ∧ FindRes' V f hay needle r ∧
-      c'.steps ≤ c.steps + findCost V f hay needle ∧
-      (r = none → ¬ OverlapCond V f hay needle)) ∨
-    (find V f hay needle c = .fault (.debugAssert siteOverlap) ∧ OverlapCond V f hay needle ∧
-      ∀ q, q < f.scanned V hay → ¬ f.HitAt' hay needle q) := by
+    ∃ r c', find V f hay needle c = .ok r c' ∧ FindRes' V f hay needle r ∧
+      c'.steps ≤ c.steps + findCost V f hay needle := by
   have hpos := V.bytes_pos
   obtain ⟨all, hall, hrun⟩ := find_unfold L f hay needle hh hlen c
   have G := geom_of f hok hh hlen
@@ -236,25 +242,13 @@ theorem find_foreign_good (L : Lawful V) (f : Finder) (hok : FinderOk V f) (hay 
   have espan : hay.endPtr - f.minHaystackLen + V.bytes - hay.ptr =
       (hay.len - f.minHaystackLen) + V.bytes := by
     unfold Slice.endPtr Slice.ptr; omega
-  have elim : hay.endPtr - f.minHaystackLen + V.bytes = hay.ptr + f.scanned V hay := by
-    unfold Slice.endPtr Slice.ptr Finder.scanned; omega
-  have hsc : f.scanned V hay + max f.index1 f.index2 ≤ hay.len := by
-    have := hok.min_ge
-    unfold Finder.scanned; omega
   rw [hrun]
-  rcases findLoop_good L f hay.mem needle hay.ptr hay.endPtr (hay.endPtr - f.minHaystackLen) all
-    hay.ptr c G hn hg hall (Nat.le_refl _) (Nat.le_trans G.hsm (Nat.le_add_right _ _)) hno with
-    ⟨r, c', hr, hres, hcost, hD⟩ | ⟨hr, hD1, hD2, hD3⟩
-  · left
-    refine ⟨r, c', hr, findRes_conv f hok hh hn hlen hres, ?_, ?_⟩
-    · rw [espan, Nat.add_div_right _ hpos] at hcost
-      exact hcost
-    · rw [espan, Nat.add_mod_right] at hD
-      exact hD
-  · right
-    rw [espan, Nat.add_mod_right] at hD1
-    rw [elim] at hD3
-    exact ⟨hr, ⟨hD1, hD2⟩, (noHitIn_iff f hh hn _ hsc).mp hD3⟩
+  obtain ⟨r, c', hr, hres, hcost⟩ := findLoop_good L f hay.mem needle hay.ptr hay.endPtr
+    (hay.endPtr - f.minHaystackLen) all hay.ptr c G hn hg hall (Nat.le_refl _)
+    (Nat.le_trans G.hsm (Nat.le_add_right _ _)) hno
+  refine ⟨r, c', hr, findRes_conv f hok hh hn hlen hres, ?_⟩
+  rw [espan, Nat.add_div_right _ hpos] at hcost
+  exact hcost
 
 /-- `find` with a search needle longer than the haystack's region up to the end of the
 haystack: the first pair match in a main-loop chunk computes `end.sub(needle.len())` outside
@@ -299,34 +293,43 @@ theorem find_foreign_bad (L : Lawful V) (f : Finder) (hok : FinderOk V f) (hay n
     rw [(candA_iff f hh q (hrange q hq)).mpr hc] at this
     cases this
 
-/-! ### C05: an arbitrary search needle never causes an out-of-bounds or misaligned read -/
+/-! ### C05: an arbitrary search needle -/
 
 /-- **C05 (out of domain).** For an arbitrary search needle (any bytes, any length, unrelated
 to the construction needle) and a haystack of at least `min_haystack_len` bytes, `find` either
-returns normally, or stops at the out-of-allocation `end.sub(needle.len())` (observation O2,
-exactly when `find_ptrOob_iff` says), or stops at the tail's
-`debug_assert!(overlap < V::BYTES)` (exactly when `find_debugAssert_iff` says). -/
+returns normally or stops at the out-of-allocation `end.sub(needle.len())` (observation O2,
+exactly when `find_ptrOob_iff` says). -/
 theorem find_reads_ok (L : Lawful V) (f : Finder) (hok : FinderOk V f) (hay needle : Slice)
     (hh : hay.Valid) (hn : needle.Valid) (hlen : f.minHaystackLen ≤ hay.len) (c : Ctr) :
     (∃ r c', find V f hay needle c = .ok r c') ∨
-    find V f hay needle c = .fault (.ptrOob siteEndSub) ∨
-    find V f hay needle c = .fault (.debugAssert siteOverlap) := by
+    find V f hay needle c = .fault (.ptrOob siteEndSub) := by
   by_cases hg : needle.len ≤ hay.off + hay.len
-  · rcases find_foreign_good L f hok hay needle hh hn hlen hg c with
-      ⟨r, c', hr, -⟩ | ⟨hr, -⟩
-    · exact Or.inl ⟨r, c', hr⟩
-    · exact Or.inr (Or.inr hr)
+  · obtain ⟨r, c', hr, -⟩ := find_foreign_good L f hok hay needle hh hn hlen hg c
+    exact Or.inl ⟨r, c', hr⟩
   · rcases find_foreign_bad L f hok hay needle hh hlen (by omega) c with ⟨-, hr⟩ | ⟨-, c', hr⟩
-    · exact Or.inr (Or.inl hr)
+    · exact Or.inr hr
     · exact Or.inl ⟨none, c', hr⟩
 
-/-- in particular: no out-of-bounds read and no misaligned load, whatever the search needle -/
-theorem find_no_bad_read (L : Lawful V) (f : Finder) (hok : FinderOk V f) (hay needle : Slice)
-    (hh : hay.Valid) (hn : needle.Valid) (hlen : f.minHaystackLen ≤ hay.len) (c : Ctr) :
+/-- For ANY search needle and a haystack of at least `min_haystack_len` bytes, `find` never
+faults with a debug assertion, a panic, an arithmetic overflow, an out-of-bounds read or a
+misaligned load; the only possible fault is the `ptrOob` of O2 at `end.sub(needle.len())`.
+(This replaces `find_debugAssert_iff`: since the fix of O3 the tail's debug assertion is
+unreachable.) -/
+theorem find_no_fault_but_ptrOob (L : Lawful V) (f : Finder) (hok : FinderOk V f)
+    (hay needle : Slice) (hh : hay.Valid) (hn : needle.Valid)
+    (hlen : f.minHaystackLen ≤ hay.len) (c : Ctr) :
+    (∀ s, find V f hay needle c ≠ .fault (.debugAssert s)) ∧
+    (∀ s, find V f hay needle c ≠ .fault (.panic s)) ∧
+    (∀ s, find V f hay needle c ≠ .fault (.overflow s)) ∧
     (∀ r a l, find V f hay needle c ≠ .fault (.oobRead r a l)) ∧
-    (∀ a w, find V f hay needle c ≠ .fault (.misaligned a w)) := by
-  rcases find_reads_ok L f hok hay needle hh hn hlen c with ⟨r, c', hr⟩ | hr | hr <;>
-    rw [hr] <;> exact ⟨fun _ _ _ h => (by cases h), fun _ _ h => (by cases h)⟩
+    (∀ a w, find V f hay needle c ≠ .fault (.misaligned a w)) ∧
+    (∀ s, find V f hay needle c = .fault (.ptrOob s) → s = siteEndSub) := by
+  rcases find_reads_ok L f hok hay needle hh hn hlen c with ⟨r, c', hr⟩ | hr <;> rw [hr]
+  · exact ⟨fun _ h => (by cases h), fun _ h => (by cases h), fun _ h => (by cases h),
+      fun _ _ _ h => (by cases h), fun _ _ h => (by cases h), fun _ h => (by cases h)⟩
+  · exact ⟨fun _ h => (by cases h), fun _ h => (by cases h), fun _ h => (by cases h),
+      fun _ _ _ h => (by cases h), fun _ _ h => (by cases h),
+      fun _ h => (by cases h; rfl)⟩
 
 /-- **O2, exactly.** `find` computes `end.sub(needle.len())` outside the haystack's allocation
 iff the search needle is longer than the part of the region that ends with the haystack and
@@ -340,8 +343,8 @@ theorem find_ptrOob_iff (L : Lawful V) (f : Finder) (hok : FinderOk V f) (hay ne
   by_cases hg : needle.len ≤ hay.off + hay.len
   · constructor
     · intro h
-      rcases find_foreign_good L f hok hay needle hh hn hlen hg c with
-        ⟨r, c', hr, -⟩ | ⟨hr, -⟩ <;> rw [hr] at h <;> cases h
+      obtain ⟨r, c', hr, -⟩ := find_foreign_good L f hok hay needle hh hn hlen hg c
+      rw [hr] at h; cases h
     · intro ⟨h, _⟩; omega
   · rcases find_foreign_bad L f hok hay needle hh hlen (by omega) c with
       ⟨hex, hr⟩ | ⟨hnone, c', hr⟩
@@ -351,34 +354,20 @@ theorem find_ptrOob_iff (L : Lawful V) (f : Finder) (hok : FinderOk V f) (hay ne
       · intro ⟨_, q, hq, hc⟩
         exact absurd hc (hnone q hq)
 
-/-- **New observation, exactly.** `find` reaches `debug_assert!(overlap < V::BYTES)` with
-`overlap = V::BYTES` iff `len - min_haystack_len` is a multiple of `BYTES`, the search needle is
-at least `BYTES` shorter than `min_haystack_len`, and no scanned offset is a hit. -/
-theorem find_debugAssert_iff (L : Lawful V) (f : Finder) (hok : FinderOk V f)
+/-- A foreign search needle that is not longer than the haystack (so O2 is impossible): `find`
+returns normally, with the lowest scanned offset where the pair matches and the search needle
+occurs, within the cost bound. -/
+theorem find_foreign_no_fault (L : Lawful V) (f : Finder) (hok : FinderOk V f)
     (hay needle : Slice) (hh : hay.Valid) (hn : needle.Valid)
-    (hlen : f.minHaystackLen ≤ hay.len) (c : Ctr) :
-    find V f hay needle c = .fault (.debugAssert siteOverlap) ↔
-      OverlapCond V f hay needle ∧ ∀ q, q < f.scanned V hay → ¬ f.HitAt' hay needle q := by
-  by_cases hg : needle.len ≤ hay.off + hay.len
-  · rcases find_foreign_good L f hok hay needle hh hn hlen hg c with
-      ⟨r, c', hr, hres, -, hD⟩ | ⟨hr, hD, hno⟩
-    · constructor
-      · intro h; rw [hr] at h; cases h
-      · intro ⟨h1, h2⟩
-        cases r with
-        | some x => exact absurd hres.2.1 (h2 x hres.1)
-        | none => exact absurd h1 (hD rfl)
-    · exact ⟨fun _ => ⟨hD, hno⟩, fun _ => hr⟩
-  · constructor
-    · intro h
-      rcases find_foreign_bad L f hok hay needle hh hlen (by omega) c with
-        ⟨-, hr⟩ | ⟨-, c', hr⟩ <;> rw [hr] at h <;> cases h
-    · intro ⟨⟨_, h⟩, _⟩; omega
+    (hlen : f.minHaystackLen ≤ hay.len) (hnl : needle.len ≤ hay.len) (c : Ctr) :
+    ∃ r c', find V f hay needle c = .ok r c' ∧ FindRes' V f hay needle r ∧
+      c'.steps ≤ c.steps + findCost V f hay needle :=
+  find_foreign_good L f hok hay needle hh hn hlen (by omega) c
 
 /-! ### C14 -/
 
-/-- **C14.** For any search needle, `find` panics at its `assert!` iff the haystack is shorter
-than `min_haystack_len`. -/
+/-- **C14.** For any search needle, `find` panics (at its `assert!`, and nowhere else) iff the
+haystack is shorter than `min_haystack_len`. -/
 theorem find_panics_iff (L : Lawful V) (f : Finder) (hok : FinderOk V f) (hay needle : Slice)
     (hh : hay.Valid) (hn : needle.Valid) (c : Ctr) :
     find V f hay needle c = .fault (.panic "packedpair::find: haystack too small") ↔
@@ -386,8 +375,7 @@ theorem find_panics_iff (L : Lawful V) (f : Finder) (hok : FinderOk V f) (hay ne
   constructor
   · intro h
     by_cases hlen : f.minHaystackLen ≤ hay.len
-    · rcases find_reads_ok L f hok hay needle hh hn hlen c with ⟨r, c', hr⟩ | hr | hr <;>
-        rw [hr] at h <;> cases h
+    · exact absurd h ((find_no_fault_but_ptrOob L f hok hay needle hh hn hlen c).2.1 _)
     · omega
   · exact find_too_small f hay needle c
 
@@ -417,28 +405,26 @@ theorem find_correct (L : Lawful V) (hay needle : Slice) (hh : hay.Valid) (hn : 
   have hpos := V.bytes_pos
   have hml : (mkFinder V needle i1 i2).minHaystackLen = max needle.len (max i1 i2 + V.bytes) := rfl
   have hg : needle.len ≤ hay.off + hay.len := by omega
-  rcases find_foreign_good L _ hok hay needle hh hn hlen hg c with
-    ⟨r, c', hr, hres, hcost, -⟩ | ⟨-, ⟨-, hD⟩, -⟩
-  · refine ⟨c', ?_, hcost⟩
-    rw [hr]
-    congr 1
-    cases r with
-    | some x =>
-      obtain ⟨a1, a2, a3⟩ := hres
-      symm
-      rw [Spec.leftmost_eq_some_iff]
-      exact ⟨a2.2, fun j hj ho => a3 j hj ⟨candAt_of_occAt hn h1 h2 ho, ho⟩⟩
-    | none =>
-      symm
-      rw [Spec.leftmost_eq_none_iff]
-      intro j ho
-      apply hres j
-      · have := ho.1
-        rw [toArray_size hh, toArray_size hn] at this
-        unfold Finder.scanned
-        omega
-      · exact ⟨candAt_of_occAt hn h1 h2 ho, ho⟩
-  · omega
+  obtain ⟨r, c', hr, hres, hcost⟩ := find_foreign_good L _ hok hay needle hh hn hlen hg c
+  refine ⟨c', ?_, hcost⟩
+  rw [hr]
+  congr 1
+  cases r with
+  | some x =>
+    obtain ⟨a1, a2, a3⟩ := hres
+    symm
+    rw [Spec.leftmost_eq_some_iff]
+    exact ⟨a2.2, fun j hj ho => a3 j hj ⟨candAt_of_occAt hn h1 h2 ho, ho⟩⟩
+  | none =>
+    symm
+    rw [Spec.leftmost_eq_none_iff]
+    intro j ho
+    apply hres j
+    · have := ho.1
+      rw [toArray_size hh, toArray_size hn] at this
+      unfold Finder.scanned
+      omega
+    · exact ⟨candAt_of_occAt hn h1 h2 ho, ho⟩
 
 /-- **C13.** the bound of `find_correct` in the form `(len / BYTES + 2) * (1 + BYTES * (needle.len / 4 + 3))`:
 linear in the haystack length for a bounded needle length. -/
@@ -655,14 +641,15 @@ example : ∃ c', find Sensible.sse2 (mkFinder Sensible.sse2 exNeedle 0 7) exHay
   have e : Spec.leftmost exHay.toArray exNeedle.toArray = some 21 := by decide
   exact ⟨c', e ▸ h⟩
 
-/-- hypotheses of the foreign-needle theorems (`find_reads_ok`, `find_ptrOob_iff`,
-`find_debugAssert_iff`, `find_panics_iff`) with the 4-lane checked vector type: the finder for
-"abcdefgh" with the pair `(0, 1)` has `min_haystack_len = 8`; the 40-byte haystack and the
-one-byte foreign needle satisfy `OverlapCond` (`(40 - 8) % 4 = 0`, `1 + 4 <= 8`). -/
+/-- hypotheses of the foreign-needle theorems (`find_reads_ok`, `find_no_fault_but_ptrOob`,
+`find_ptrOob_iff`, `find_foreign_no_fault`, `find_panics_iff`) with the 4-lane checked vector
+type: the finder for "abcdefgh" with the pair `(0, 1)` has `min_haystack_len = 8`; the 40-byte
+haystack and the one-byte foreign needle are the shape of input that reached the debug
+assertion before the fix of O3 (`(40 - 8) % 4 = 0`, `1 + 4 <= 8`). -/
 example : FinderOk Sensible.small4 (mkFinder Sensible.small4 exNeedle 0 1) ∧ exHay.Valid ∧
     exForeign.Valid ∧ (mkFinder Sensible.small4 exNeedle 0 1).minHaystackLen ≤ exHay.len ∧
-    OverlapCond Sensible.small4 (mkFinder Sensible.small4 exNeedle 0 1) exHay exForeign := by
-  refine ⟨mkFinder_ok _ _ _ (by decide), by decide, by decide, by decide, by decide, by decide⟩
+    exForeign.len ≤ exHay.len := by
+  refine ⟨mkFinder_ok _ _ _ (by decide), by decide, by decide, by decide, by decide⟩
 
 end Examples
 
@@ -673,9 +660,9 @@ end Memchr.PackedPair
 #print axioms Memchr.PackedPair.find_panics_iff
 #print axioms Memchr.PackedPair.find_panics_or_ok
 #print axioms Memchr.PackedPair.find_reads_ok
-#print axioms Memchr.PackedPair.find_no_bad_read
+#print axioms Memchr.PackedPair.find_no_fault_but_ptrOob
 #print axioms Memchr.PackedPair.find_ptrOob_iff
-#print axioms Memchr.PackedPair.find_debugAssert_iff
+#print axioms Memchr.PackedPair.find_foreign_no_fault
 #print axioms Memchr.PackedPair.find_foreign_good
 #print axioms Memchr.PackedPair.find_foreign_bad
 #print axioms Memchr.PackedPair.findPrefilter_spec
